@@ -73,22 +73,25 @@ type mainInst struct {
 }
 
 type mainWorld struct {
-	initFails bool // the next start finds a store it cannot initialise
-	p         *Plan
-	W         *World
-	stubs     []*tileStub
-	sn        *SimNet
-	store     persistence.LogStatePersistence
-	dbPath    string
-	dir       string
-	inst      *mainInst
-	interval  time.Duration
-	witPub    WitKey
-	signers   []note.Signer
-	witV      note.Verifier
-	events    []string
-	opCfg     omniwitness.OperatorConfig
+	noneLog     string // origin of an extra configured log with Feeder: none and no URL
+	racingReads int    // monitor reads launched while an update held its transaction
+	initFails   bool   // the next start finds a store it cannot initialise
+	p           *Plan
+	W           *World
+	stubs       []*tileStub
+	sn          *SimNet
+	store       persistence.LogStatePersistence
+	dbPath      string
+	dir         string
+	inst        *mainInst
+	interval    time.Duration
+	witPub      WitKey
+	signers     []note.Signer
+	witV        note.Verifier
+	events      []string
+	opCfg       omniwitness.OperatorConfig
 
+	distPuts   map[string]int // PUTs the (stub) distributor received, per log ID
 	storeFault func(call, id string, occ int) error
 	storeMu    sync.Mutex
 	storeOcc   map[string]int
@@ -116,15 +119,52 @@ func newMainWorld(p *Plan) (*mainWorld, error) {
 		if kind == "tiles" && p.Cfg.Extra[fmt.Sprintf("ext%d", i)] != 0 {
 			st.ext = []string{fmt.Sprintf("timestamp %d", 1700000000+i), "shard fill 100% sealed"}
 		}
+		st.xsigs = int(p.Cfg.Extra[fmt.Sprintf("xsig%d", i)])
 		m.stubs = append(m.stubs, st)
 		m.sn.Hosts[host] = st
+		if p.Cfg.Extra["redirected_logs"] != 0 && i > 0 {
+			// the configured URL is an alias that redirects to where the log lives
+			alias, target := fmt.Sprintf("alias%d.example", i), host
+			m.sn.Hosts[alias] = http.HandlerFunc(func(rw http.ResponseWriter, rq *http.Request) {
+				http.Redirect(rw, rq, "http://"+target+rq.URL.EscapedPath(), http.StatusFound)
+			})
+			host = alias
+		}
 		url := "http://" + host
 		if kind == "tiles" {
 			url += "/"
 		}
 		fmt.Fprintf(&yaml, "  - Origin: %s\n    URL: %s\n    PublicKey: %s\n    Feeder: %s\n", strconv.Quote(ld.Origin), url, ld.Key.VerifierString(), kind) // quoted: origins may begin or end with blanks
 	}
+	if p.Cfg.Extra["distributor"] != 0 && p.Cfg.Extra["none_log"] != 0 {
+		// a log without a feeder (its checkpoints only ever arrive through the bastion endpoint) and, as is legal for such an
+		// entry, without a URL: it is a configured log like any other
+		m.noneLog = "sim.example/pushed-only"
+		fmt.Fprintf(&yaml, "  - Origin: %s\n    PublicKey: %s\n    Feeder: none\n", m.noneLog, m.W.Stranger.VerifierString())
+	}
 	omniwitness.ConfigLogs = []byte(yaml.String())
+	if p.Cfg.Extra["distributor"] != 0 {
+		// a REST distributor is configured as well; the stub records what it is sent and, optionally, never answers for the first log
+		m.opCfg = omniwitness.OperatorConfig{RestDistributorBaseURL: "http://distributor.example", DistributeInterval: m.interval}
+		m.distPuts = map[string]int{}
+		first := m.W.Logs[0].ID
+		m.sn.Hosts["distributor.example"] = http.HandlerFunc(func(rw http.ResponseWriter, rq *http.Request) {
+			if rq.Method == http.MethodPut {
+				for _, ld := range m.W.Logs {
+					if strings.Contains(rq.URL.Path, "/logs/"+ld.ID+"/") {
+						m.storeMu.Lock()
+						m.distPuts[ld.ID]++
+						m.storeMu.Unlock()
+					}
+				}
+				if p.Cfg.Extra["dist_stall_first"] != 0 && strings.Contains(rq.URL.Path, "/logs/"+first+"/") {
+					<-rq.Context().Done()
+					return
+				}
+			}
+			rw.WriteHeader(200)
+		})
+	}
 	var err error
 	m.signers, err = m.W.Signers()
 	if err != nil {
@@ -183,6 +223,38 @@ func (m *mainWorld) start() error {
 		}
 		return nil
 	}}
+	if m.dbPath != "" && m.p.Cfg.Extra["racing_reads"] != 0 {
+		// a monitor reads another log's checkpoint over HTTP exactly while an update sits in its transaction (seeded subset of
+		// the updates). The update then waits one simulated millisecond, i.e. until everything else has come to rest: the read
+		// is queued behind the one connection (or answered) before the update goes on.
+		fp := store.(faultyP)
+		fp.atWriteRead = func(id string, occ int) {
+			if splitmix(m.p.Seed^strHash(id)^uint64(occ)*0x9e3779b97f4a7c15)%3 != 0 && occ > 1 {
+				return
+			}
+			inst := m.inst
+			if inst == nil {
+				return
+			}
+			for _, ld := range m.W.Logs {
+				if ld.ID != id {
+					path := "/witness/v0/logs/" + ld.ID + "/checkpoint"
+					go func() {
+						if resp, err := inst.cl.Get("http://witness.example" + path); err == nil {
+							io.Copy(io.Discard, resp.Body)
+							resp.Body.Close()
+						}
+					}()
+					m.storeMu.Lock()
+					m.racingReads++
+					m.storeMu.Unlock()
+					break
+				}
+			}
+			time.Sleep(time.Millisecond)
+		}
+		store = fp
+	}
 	ctx, cancel := context.WithCancel(context.Background())
 	inst.cancel = cancel
 	cfg := omniwitness.OperatorConfig{WitnessKeys: m.signers, WitnessVerifier: m.witV, FeedInterval: m.interval}
@@ -250,6 +322,8 @@ type faultyP struct {
 	fault func(call, id string, occ int) error
 	fired *int
 	init  func() error // makes Init fail (the database is locked by somebody else, or unreadable, when the process starts)
+	// atWriteRead is called inside an update's transaction, right after it read the stored checkpoint
+	atWriteRead func(id string, occ int)
 }
 
 func (f faultyP) Init() error {
@@ -323,25 +397,39 @@ func (w faultyW) GetLatest() ([]byte, error) {
 	if err != nil {
 		return nil, err
 	}
-	return w.LogStateWriteOps.GetLatest()
+	b, gerr := w.LogStateWriteOps.GetLatest()
+	if w.f.atWriteRead != nil {
+		w.f.atWriteRead(w.id, n) // the update now holds its transaction and has read the state it will judge against
+	}
+	return b, gerr
 }
 
 // ---------------------------------------------------------------- C14
 
 type c14Result struct {
-	viol     []Violation
-	infra    string
-	events   []string
-	stats    Stats
-	sample   any
-	distinct []string
+	completed bool // the script ran to its end and the service was stopped
+	viol      []Violation
+	infra     string
+	events    []string
+	stats     Stats
+	sample    any
+	distinct  []string
 }
 
 func c14Exec(t *testing.T, p *Plan) (r *c14Result) {
 	r = &c14Result{stats: newStats()}
 	defer func() {
 		if x := recover(); x != nil {
-			r.infra = fmt.Sprintf("bubble ended abnormally: %v", x)
+			if strings.Contains(fmt.Sprint(x), "blocked goroutines remain") && r.completed {
+				// the script ran to its end and Main was stopped, yet goroutines the service started are still blocked for good:
+				// typically database/sql's watcher of a transaction that was neither committed nor rolled back - on the
+				// one-connection store that transaction also blocks every later request
+				if len(r.viol) == 0 {
+					r.viol = append(r.viol, Violation{Class: "not_caught_up", Sig: "not_caught_up/blocked_goroutines_at_end", Detail: fmt.Sprintf("after the service was stopped, goroutines it started were still blocked for good (%v): a storage transaction was left open", x)})
+				}
+			} else {
+				r.infra = fmt.Sprintf("bubble ended abnormally: %v", x)
+			}
 			dumpGoroutines()
 		}
 	}()
@@ -461,6 +549,10 @@ func c14Exec(t *testing.T, p *Plan) (r *c14Result) {
 		}
 		settle()
 		observe("start", true)
+		atStart := map[int]bool{}
+		for i := range w.Logs {
+			atStart[i] = witnessed[i].Has
+		}
 		for oi, op := range p.Ops {
 			if len(r.viol) > 0 {
 				break
@@ -638,6 +730,21 @@ func c14Exec(t *testing.T, p *Plan) (r *c14Result) {
 			r.distinct = append(r.distinct, fmt.Sprintf("%s/%d", st.kind, st.size))
 			st.mu.Unlock()
 		}
+		if m.distPuts != nil {
+			// every log the service had a checkpoint for from the start is offered to the distributor, whatever the distributor
+			// does with another log's checkpoint
+			m.storeMu.Lock()
+			for i, ld := range w.Logs {
+				if atStart[i] && m.distPuts[ld.ID] == 0 {
+					add("not_caught_up", "never_distributed", fmt.Sprintf("log %d had a served checkpoint from the start, yet over %v the distributor never received a PUT for it (PUTs per log: %v; distributor stalls on the first log: %v)", i, time.Since(start), m.distPuts, p.Cfg.Extra["dist_stall_first"] != 0))
+				}
+			}
+			m.storeMu.Unlock()
+			if m.noneLog != "" && m.storeOcc["R.GetLatest/"+LogID(m.noneLog)] == 0 {
+				add("id_disagreement", "log_missing_from_distributor_list", fmt.Sprintf("the configured log %q (no feeder, no URL) is known to the witness, but over %v the distributor never asked for its checkpoint: the list Main gives the distributor and the bastion endpoint does not name it", m.noneLog, time.Since(start)))
+			}
+			r.stats.Probes["runs_with_a_distributor"]++
+		}
 		// storage keys are the same IDs
 		if m.inst != nil {
 			m.stop()
@@ -646,10 +753,12 @@ func c14Exec(t *testing.T, p *Plan) (r *c14Result) {
 			r.stats.Fired[k] += v
 		}
 		r.stats.Fired["storage/W.GetLatest_failed"] += m.storeFired
+		r.stats.Probes["monitor_reads_during_an_update_transaction"] += m.racingReads
 		r.stats.SimNanos = int64(time.Since(start))
 		r.events = m.events
 		time.Sleep(2 * time.Minute)
 		synctest.Wait()
+		r.completed = true
 	})
 	return r
 }
@@ -682,6 +791,11 @@ func init() {
 				feeders = append(feeders, "tiles") // only one SumDB-shaped log can exist: its origin is fixed by the format
 				p.Cfg.Extra[fmt.Sprintf("size%d", i)] = int64(Pick(r, 1, 2, 200, 254, 255, 256, 257, 300, 65530, 65536))
 				p.Cfg.Extra[fmt.Sprintf("ext%d", i)] = int64(r.IntN(2))
+				if i > 0 && r.Chance(0.25) {
+					// the log publishes its checkpoints with other parties' signature lines, up to what still leaves room for this witness's own
+					most := 100 - 1 - len(p.Cfg.WitKeys)
+					p.Cfg.Extra[fmt.Sprintf("xsig%d", i)] = int64(Pick(r, most, most, most-1, 50, 3))
+				}
 			}
 			if nl > 1 && r.Chance(0.3) {
 				// an origin of unusual but legal shape: every part of Main must still mean the same log by it
@@ -707,6 +821,21 @@ func init() {
 					p.Ops = append(p.Ops, o)
 				default:
 					p.Ops = append(p.Ops, Op{K: "restart", Ms: int64(Pick(r, 0, 1000, 90000))})
+				}
+			}
+			if p.Cfg.Store == "sqlite" && nl > 1 && r.Bool() {
+				p.Cfg.Extra["racing_reads"] = 1
+			}
+			if r.Chance(0.4) {
+				p.Cfg.Extra["distributor"] = 1
+				if nl > 1 && r.Bool() {
+					p.Cfg.Extra["dist_stall_first"] = 1
+				}
+				if r.Bool() {
+					p.Cfg.Extra["redirected_logs"] = 1
+				}
+				if r.Bool() {
+					p.Cfg.Extra["none_log"] = 1
 				}
 			}
 			if p.Cfg.Store == "sqlite" && r.Chance(0.2) {
